@@ -31,6 +31,7 @@
 (* A reading is  [v    : the rational denoted (BigNum Q, not reduced),     *)
 (*                ulp  : one unit of the last printed digit, exponent      *)
 (*                       included (zero for fractions),                    *)
+(*                up   : |v| + ulp (for "pos"),                            *)
 (*                kind : "pos" terminating | "rec" with block | "frac",    *)
 (*                blk  : length of the block (0 if none),                  *)
 (*                per  : the stated period, -1 if none]                    *)
@@ -88,14 +89,17 @@ NDigits(ds, b) ==
                     r == Len(ds) % g
                 IN NDigitsC(ds, b, g, b ^ g, r + 1, NFromInt(ChunkVal(ds, 1, r, b, 0)))
 
-\* base ^ k
+\* base ^ k  (power-of-two bases: a shift; others: one small multiplication per ChunkLen digits)
+RECURSIVE MulSmallTimes(_, _, _)
+MulSmallTimes(acc, m, n) == IF n = 0 THEN acc ELSE MulSmallTimes(NMulSmall(acc, m), m, n - 1)
+
 BasePow(b, k) ==
   CASE b = 2 -> NPow2(k)
     [] b = 4 -> NPow2(2 * k)
     [] b = 8 -> NPow2(3 * k)
     [] b = 16 -> NPow2(4 * k)
     [] b = 32 -> NPow2(5 * k)
-    [] OTHER -> NPow(<<b>>, k)
+    [] OTHER -> LET g == ChunkLen(b) IN MulSmallTimes(<<b ^ (k % g)>>, b ^ g, k \div g)
 
 -----------------------------------------------------------------------------
 (* syntax: sign and exponent removed, what is left is  ip [. fp] [block]  *)
@@ -138,21 +142,24 @@ ExpSplits(s) ==
 
 -----------------------------------------------------------------------------
 (* meaning *)
-MkReading(neg, nmag, d, ulp, kind, blk, per) ==
-  [v |-> Q(Z(neg, nmag), d), ulp |-> ulp, kind |-> kind, blk |-> blk, per |-> per]
+MkReading(neg, nmag, d, upn, ulp, kind, blk, per) ==
+  [v |-> Q(Z(neg, nmag), d), up |-> Q(Z(FALSE, upn), d), ulp |-> ulp, kind |-> kind, blk |-> blk, per |-> per]
 
 \* m: parsed mantissa, e: exponent.  The last fraction digit has weight base^s, s = e - Len(fp).
+\* `up` is the magnitude of the next numeral of the same length, |v| + ulp, over the same denominator
+\* (comparing with it avoids multiplying two long numbers).
 \* Every expensive value is bound once (set constructor over singletons).
 MantReadings(m, neg, e, b) ==
   LET s == e - Len(m.fp)
       sa == IF s < 0 THEN -s ELSE s
   IN IF m.blk = <<>>
      THEN { MkReading(neg, IF s >= 0 THEN NMul(A, S) ELSE A, IF s >= 0 THEN <<1>> ELSE S,
+                      IF s >= 0 THEN NAdd(NMul(A, S), S) ELSE NAddSmall(A, 1),
                       IF s >= 0 THEN Q(Z(FALSE, S), <<1>>) ELSE Q(ZOne, S), "pos", 0, m.per)
             : A \in {NDigits(DigitSeq(m.ip \o m.fp), b)}, S \in {BasePow(b, sa)} }
      ELSE { MkReading(neg,
                       IF s >= 0 THEN NMul(NAdd(NMul(A, M), Bk), S) ELSE NAdd(NMul(A, M), Bk),
-                      IF s >= 0 THEN M ELSE NMul(M, S),
+                      IF s >= 0 THEN M ELSE NMul(M, S), <<>>,
                       IF s >= 0 THEN Q(Z(FALSE, S), <<1>>) ELSE Q(ZOne, S), "rec", Len(m.blk), m.per)
             : A \in {NDigits(DigitSeq(m.ip \o m.fp), b)}, S \in {BasePow(b, sa)},
               Bk \in {NDigits(DigitSeq(m.blk), b)}, M \in {NSub(BasePow(b, Len(m.blk)), <<1>>)} }
@@ -171,7 +178,7 @@ PosReadings(s, b) == UNION {SplitReadings(s, k, b) : k \in ExpSplits(s) \cup {0}
 \* p/q and plain decimal integers
 FracIn(neg, ps, qs, b) ==
   IF ps = <<>> \/ qs = <<>> \/ ~AllDigits(ps, b) \/ ~AllDigits(qs, b) THEN {}
-  ELSE { MkReading(neg, P, D, QZero, "frac", 0, -1)
+  ELSE { MkReading(neg, P, D, <<>>, QZero, "frac", 0, -1)
          : P \in {NDigits(DigitSeq(ps), b)}, D \in {NDigits(DigitSeq(qs), b)} \ {<<>>} }
 
 FracReadings(s, b) ==
@@ -206,7 +213,7 @@ ApproxIn(rs, v) ==
     /\ r.kind = "pos"
     /\ (QSign(r.v) = 0 \/ QSign(r.v) = QSign(v))
     /\ QLe(QAbs(r.v), QAbs(v))
-    /\ QLt(QSub(QAbs(v), QAbs(r.v)), r.ulp)
+    /\ QLt(QAbs(v), r.up)                       \* |v| - |numeral| < ulp
 
 \* shown behind `approx.`: a truncation that really is not the value itself
 StrictIn(rs, v) ==
@@ -214,7 +221,7 @@ StrictIn(rs, v) ==
     /\ r.kind = "pos"
     /\ (QSign(r.v) = 0 \/ QSign(r.v) = QSign(v))
     /\ QLt(QAbs(r.v), QAbs(v))
-    /\ QLt(QSub(QAbs(v), QAbs(r.v)), r.ulp)
+    /\ QLt(QAbs(v), r.up)
 
 \* a stated period is the length of the bracketed block
 PeriodIn(rs) == \A r \in rs : r.per = -1 \/ r.per = r.blk
